@@ -18,7 +18,10 @@ pub struct StaticResourceController;
 
 impl Controller for StaticResourceController {
     fn is_matching(request: &Request, _connection: &ConnectionInfo) -> bool {
-        if request.method != METHOD.get {
+        let is_supported_method = request.method == METHOD.get
+            || request.method == METHOD.head
+            || request.method == METHOD.options;
+        if !is_supported_method {
             return false;
         }
 
